@@ -82,17 +82,19 @@ def close(events):
     return out
 
 
-def class_name_at(events, i):
-    """name of the innermost class open at event i ('' if none)"""
+def class_name_at(events, i, up=0):
+    """name of the innermost class open at event i ('NoClass' if none); up=n: of the n-th enclosing class instead (a
+    declaration may *name* an outer class while it sits in an inner one - it still belongs to the class it sits in)"""
     st = []
     for j, ev in enumerate(events[:i]):
         if ev["k"] in OPENERS:
             st.append((ev["k"], j))
         elif ev["k"] == "close":
             st.pop()
-    for k, j in reversed(st):
-        if k == "cpp_class":
-            return name_of(events[j], j)
+    open_classes = [j for k, j in reversed(st) if k == "cpp_class"]
+    if open_classes:
+        j = open_classes[min(up, len(open_classes) - 1)]
+        return name_of(events[j], j)
     return "NoClass"
 
 
@@ -133,12 +135,12 @@ def items(events, case="lower", trailing_dangling=False):
             cmd("cpp_class", [nm] + list(ev.get("bases", [])))
             st.append((k, i))
         elif k == "cpp_attr":
-            args = [class_name_at(events, i), nm]
+            args = [class_name_at(events, i, ev.get("cls_up", 0)), nm]
             if ev.get("default") is not None:
                 args.append(ev["default"])
             cmd("cpp_attr", args)
         elif k in ("cpp_member", "cpp_constructor"):
-            cls = class_name_at(events, i)
+            cls = class_name_at(events, i, ev.get("cls_up", 0))
             mname = nm if k == "cpp_member" else ev.get("ctor", "CTOR")
             cmd(k, [mname, cls] + list(ev.get("types", [])))
             if "declgap" in ev:       # blank line ("") or an ordinary comment between the declaration and its definition
